@@ -174,7 +174,7 @@ func TestMetrics(t *testing.T) {
 				if err != nil {
 					t.Skip("cannot listen")
 				}
-				tr, err := bmc.DialV2(srv.Addr(), bmc.WithTimeout(200*time.Millisecond))
+				tr, err := bmc.DialV2(srv.Addr(), bmc.WithTimeout(3*time.Second))
 				m.add("bmc_connection_open_attempts_total", "version=2.0", 1)
 				if err != nil {
 					t.Fatalf("DialV2 to a loopback address failed: %v", err)
